@@ -104,5 +104,6 @@ def run(ctx, R, parts=('S', 'R', 'B')):
         extra = sorted(w for w in writers if w not in allowed)
         R.inst('C11.B', 'constructed-only-by-the-two-constructors', not extra, expected=str(sorted(allowed)), found=str(sorted(writers)), entry='v2::model::TypeLengthValues')
         fw = who_writes_fields(ctx, 'v2::model::TypeLengthValues')
-        extra = sorted(w for w in fw if w != p)
+        owned = private_helpers_of(ctx, [p])
+        extra = sorted(w for w in fw if w not in owned)
         R.inst('C11.B', 'fields-assigned-only-by-next', not extra, expected=str([p]), found=str(sorted(fw)), entry='v2::model::TypeLengthValues')
